@@ -56,6 +56,7 @@ func (x *Exec) registerGhosts() {
 	x.Ghosts["up"] = ghostUp
 	x.Ghosts["frame"] = ghostFrame
 	x.Ghosts["callfunc"] = ghostCallFunc
+	x.Ghosts["frameup"] = ghostFrameUp
 }
 
 func (x *Exec) needFam(name string) *famEnv {
@@ -394,4 +395,23 @@ func ghostCallFunc(f *Frame, st, old *State, idx []spec.Expr, args []spec.Expr) 
 		return TV{r, res.At(0).Type()}
 	}
 	return TV{r, res}
+}
+
+// frameup(n [, depth]): the frame n levels up, n being a value of the compile function (a local
+// that was read from a Symbol before other calls): up(env, n), or the file-level frame when n is
+// depth-1 / depth (environment invariant).
+func ghostFrameUp(f *Frame, st, old *State, idx []spec.Expr, args []spec.Expr) TV {
+	x := f.x
+	fe := x.needFam("frameup")
+	if len(args) < 1 {
+		specErr("frameup(n [, depth])")
+	}
+	par := fe.parent
+	n := par.asInt64(par.coerce(fe.atCreation(args[0]), types.Typ[types.Int]))
+	n = x.simplifyUnder(fe.create.PC, n)
+	var depthT *smt.Term
+	if len(args) > 1 {
+		depthT = par.asInt64(fe.atCreation(args[1]))
+	}
+	return TV{x.frameOf(fe, st, n, depthT), types.NewPointer(fe.envType())}
 }
